@@ -458,3 +458,49 @@ func JBIG2(t *tape.Tape, lbl string) (page, globals []byte, desc string) {
 	}
 	return page, globals, fmt.Sprintf("forged jbig2 page %dx%d segs=%v globals=%d bytes", pw, ph, kinds, len(globals))
 }
+
+// ValidJBIG2 assembles a small embedded JBIG2 stream that every conforming
+// decoder accepts: page information, one immediate generic region covering the
+// page (arithmetic coding, nominal adaptive pixels; any payload is a valid MQ
+// code stream) and an end-of-page segment.
+func ValidJBIG2(t *tape.Tape, lbl string) (data []byte, width, height int) {
+	width = 1 + t.Draw(lbl+".w", 64)
+	height = 1 + t.Draw(lbl+".h", 64)
+	w := &jw{}
+	seg := func(num uint32, typ byte, data []byte) {
+		w.u32(num)
+		w.b(typ, 0, 1)
+		w.u32(uint32(len(data)))
+		w.Write(data)
+	}
+	pi := &jw{}
+	pi.u32(uint32(width))
+	pi.u32(uint32(height))
+	pi.u32(0)
+	pi.u32(0)
+	pi.b(0)
+	pi.u16(0)
+	seg(0, jbPageInfo, pi.Bytes())
+	gr := &jw{}
+	gr.u32(uint32(width))
+	gr.u32(uint32(height))
+	gr.u32(0)
+	gr.u32(0)
+	gr.b(0)
+	tmpl := t.Draw(lbl+".tmpl", 4)
+	gr.b(byte(tmpl << 1))
+	switch tmpl {
+	case 0:
+		gr.b(3, 0xff, 0xfd, 0xff, 2, 0xfe, 0xfe, 0xfe)
+	case 1:
+		gr.b(3, 0xff)
+	default:
+		gr.b(2, 0xff)
+	}
+	payload := make([]byte, 8+t.Draw(lbl+".n", 120))
+	t.Sub(lbl + ".rand").Read(payload)
+	gr.Write(payload)
+	seg(1, jbGenImm, gr.Bytes())
+	seg(2, jbEndOfPage, nil)
+	return w.Bytes(), width, height
+}
